@@ -49,7 +49,7 @@ def main():
         data = pattern(sk, 5) + bytes((4 * i) % 64 for i in range(16)) + pattern(((w + 1) // 2) * hh)
         args = ["-w", str(w)] + (["-r", str(h)] if h else []) + (["-s", str(sk)] if sk else [])
         jobs.append({"tool": "hrstoppm", "args": args, "data": data, "fmt": "HRS", "w": w, "h": hh, "skip": sk, "what": " ".join(args),
-                     "noskip": (["-w", str(w)] + (["-r", str(h)] if h else []), data[sk:]) if sk else None, "io": w in (2, 320) and sk == 0})
+                     "noskip": (["-w", str(w)] + (["-r", str(h)] if h else []), data[sk:]) if sk else None, "io": w in (2, 5, 320)})
     mx = dims(rep, wd, "max", widths, [0, 1, 3, 8], [0, 3, 20])
     if not thorough:
         mx = [d for d in mx if d[0] <= 24 and d[1] in (0, 3) and d[2] in (0, 3)] + gen.sample(rng, mx, 60)
@@ -63,7 +63,7 @@ def main():
         args = ["-w", str(w)] + (["-r", str(h)] if h else []) + (["-s", str(sk)] if sk else []) + ([] if mode == "bw" else ["-" + mode])
         jobs.append({"tool": "maxtoppm", "args": args, "data": data, "fmt": "MAX", "w": w, "h": h, "skip": sk, "hdrsize": size, "what": " ".join(args),
                      "noskip": ([a for a in args if a not in ("-s", str(sk))] if False else (["-w", str(w)] + (["-r", str(h)] if h else []) + ([] if mode == "bw" else ["-" + mode])), data[sk:]) if sk else None,
-                     "io": w in (8, 256) and sk == 0})
+                     "io": w in (8, 16, 256)})
     for b0, b1 in ((1, 1), (5, 30), (32, 192), (255, 2), (2, 255)):
         data = bytes([b0, b1]) + pattern(b0 * b1, 13)
         jobs.append({"tool": "maxtoppm", "args": ["-newsroom"], "data": data, "fmt": "MAX", "w": 0, "h": 0, "skip": 0, "newsroom": True, "hdr0": b0, "hdr1": b1,
